@@ -19,6 +19,10 @@ import (
 // GORACE extended by atexit_sleep_ms=0 (a caller that sets the option itself
 // is left alone; if the exec is not possible the binary just runs as it is).
 func TestMain(m *testing.M) {
+	if os.Getenv(knownChildEnv) != "" {
+		KnownChildMain() // the second process of part known-answers: prints its table and leaves
+		os.Exit(0)
+	}
 	if raceEnabled && !strings.Contains(os.Getenv("GORACE"), "atexit_sleep_ms") {
 		if exe, err := os.Executable(); err == nil {
 			var env []string
@@ -41,6 +45,7 @@ func TestProp_WideLRU(t *testing.T)     { PartLRU.Run(t) }
 func TestProp_TinyWideLRU(t *testing.T) { PartTiny.Run(t) }
 func TestProp_WideMapConc(t *testing.T) { PartConc.Run(t) }
 func TestProp_Locks(t *testing.T)       { PartLock.Run(t) }
+func TestProp_WideShared(t *testing.T)  { PartShared.Run(t) }
 
 // TestRace_WideMapConc is part widemap-conc in the -race binary (the driver
 // runs TestRace_* only from there); VERIF_RACE=1 forces it in a plain binary.
@@ -51,20 +56,34 @@ func TestRace_WideMapConc(t *testing.T) {
 	PartConcRace.Run(t)
 }
 
+// TestRace_WideShared is part wide-shared in the -race binary.
+func TestRace_WideShared(t *testing.T) {
+	if !raceEnabled && os.Getenv("VERIF_RACE") == "" {
+		t.Skip("runs from the -race binary")
+	}
+	PartSharedRace.Run(t)
+}
+
 // TestEnum_Grid runs the boundary grid completely (complete for the grid, not
 // for the property's domain, hence exhaustive=false).
 func TestEnum_Grid(t *testing.T) { PartGrid.RunCases(t, GridCases(), false) }
+
+// TestEnum_Known runs the literal known-answer table (complete for the table).
+func TestEnum_Known(t *testing.T) { PartKnown.RunCases(t, KnownCases(), false) }
 
 func TestReplay(t *testing.T) {
 	PartIndex.Replay(t, 1)
 	PartSearch.Replay(t, 1)
 	PartGrid.Replay(t, 1)
+	PartKnown.Replay(t, 1)
 	PartMap.Replay(t, 1)
 	PartLRU.Replay(t, 1)
 	PartTiny.Replay(t, 1)
 	PartLock.Replay(t, 1)
 	PartConc.Replay(t, 200)
 	PartConcRace.Replay(t, 200)
+	PartShared.Replay(t, 50)
+	PartSharedRace.Replay(t, 50)
 }
 
 // FuzzRoute is the raw entry: a shard count, a raw hash and arbitrary key
